@@ -282,6 +282,10 @@ def rfTerms (R : RF K) : List K → Nat → List (RExpr K)
     .mul (.mul (.mul (.mul (.const c) (.pow .var m)) (.inv (.poly R.A))) (delayFactor (-1) R)) (undefFactor R)
       :: rfTerms R cs (m + 1)
 
+/-- `Expr.expand_response()` / `Expr.as_sum()`: the numerator `N = B·exp·U` expanded into terms, each divided by the
+    polynomial denominator `D`, and summed -/
+def expandResponse (R : RF K) : RExpr K := (rfTerms R R.B 0).foldl .add (.const 0)
+
 /-! ## `expandcanonical` with the enumeration order of the source -/
 
 /-- `for m, c in enumerate(reversed(Bpoly.all_coeffs()))` (low power first) or without `reversed`
